@@ -392,6 +392,65 @@ fn op_label(s: &str) -> &'static str {
     }
 }
 
+fn limbs_of(n: &Nat) -> Vec<u64> {
+    let mut v: Vec<u64> = Vec::new();
+    let mut i = 0u64;
+    let bits = n.bits();
+    while i * 64 < bits.max(1) {
+        let mut w = 0u64;
+        for b in 0..64u64 {
+            if n.bit(i * 64 + b) {
+                w |= 1 << b;
+            }
+        }
+        v.push(w);
+        i += 1;
+    }
+    while v.last() == Some(&0) {
+        v.pop();
+    }
+    v
+}
+
+/// QUOT: X = ceil(T / 5^k) for special targets T (zero / all-ones limbs, a zero or all-ones limb directly below a small
+/// or large top limb), so that the *product* X * 5^k - an intermediate of `pow` whichever way the steps are grouped, and
+/// the result of `large_mul` by the tabulated powers - has those special limbs although X itself looks generic.
+/// (Round 8, C12-P/Q: a multiplication by a fixed constant turns special operands into generic intermediates; this is
+/// the inverse image.)
+fn quot_family() -> Vec<(Vec<u64>, u32)> {
+    let mut out: Vec<(Vec<u64>, u32)> = Vec::new();
+    for k in [27u32, 54, 81, 108, 135, 162, 270] {
+        let p = pow5(k);
+        let pl = ((p.bits() + 63) / 64) as usize;
+        for extra in 1..=4usize {
+            let len = pl + extra;
+            for top in [1u64, 5, 1 << 32, u64::MAX] {
+                for pat in 0..4u8 {
+                    let (bg, below) = match pat {
+                        0 => (0u64, 0u64),
+                        1 => (u64::MAX, u64::MAX),
+                        2 => (u64::MAX, 0),
+                        _ => (0, u64::MAX),
+                    };
+                    let mut t = vec![bg; len];
+                    t[len - 2] = below;
+                    t[len - 1] = top;
+                    let tn = Nat::from_limbs(&t);
+                    let (mut q, r) = tn.divrem(&p);
+                    if !r.is_zero() {
+                        q.add_small(1);
+                    }
+                    let x = limbs_of(&q);
+                    if !x.is_empty() {
+                        out.push((x, k));
+                    }
+                }
+            }
+        }
+    }
+    out
+}
+
 pub fn c12(a: &Args) -> (Stats, String) {
     let t = Timer::new();
     let ops = std::sync::Arc::new(limbs_family());
@@ -415,7 +474,9 @@ pub fn c12(a: &Args) -> (Stats, String) {
     // job layout: [0, nchunks) unary+scalar ops over the whole family; then binary ops rows; then pow; then shifts
     let chunk = 256;
     let nchunks = (nops + chunk - 1) / chunk;
-    let njobs = nchunks + nsub + 1 + 1;
+    let quot = std::sync::Arc::new(quot_family());
+    let nquot = quot.len();
+    let njobs = nchunks + nsub + 1 + 1 + 1;
     let dummy: Vec<Job> = (0..njobs).map(|_| -> Job { Box::new(|_e: &mut fam::Emit| {}) }).collect();
     let thorough = a.thorough;
     let st = run_jobs(
@@ -477,6 +538,27 @@ pub fn c12(a: &Args) -> (Stats, String) {
                 for &v in &LIMB_VALUES {
                     run_op(st, vec![s("from_u64"), v.to_string()]);
                 }
+            } else if j == nchunks + nsub + 2 {
+                // QUOT: operands whose product with a power of five the algorithms multiply by is special
+                let p135: Vec<u64> = limbs_of(&pow5(135));
+                for (x, k) in quot.iter() {
+                    let ex = enc(x);
+                    for n in [*k, *k + 1, *k + 26, *k + 27, *k + 54] {
+                        run_op(st, vec![s("pow"), ex.clone(), n.to_string()]);
+                    }
+                    let pk = limbs_of(&pow5(*k));
+                    run_op(st, vec![s("large_mul"), ex.clone(), enc(&pk)]);
+                    run_op(st, vec![s("long_mul"), enc(&pk), ex.clone()]);
+                    // the same operand below one more low limb, times 5^135 (row-wise and top-down accumulation both cross the special limbs)
+                    for y0 in [1u64, 93, 94, u64::MAX] {
+                        let mut y = vec![y0];
+                        y.extend_from_slice(x);
+                        let ey = enc(&y);
+                        run_op(st, vec![s("pow"), ey.clone(), k.to_string()]);
+                        run_op(st, vec![s("pow"), ey.clone(), (*k + 135).to_string()]);
+                        run_op(st, vec![s("long_mul"), enc(&p135), ey.clone()]);
+                    }
+                }
             } else {
                 // shl for every n in 0..=64*cap on three operands; shl_limbs 1..=cap+1 on the normalised sub-family
                 for n in 0..=64 * c + 1 {
@@ -502,11 +584,12 @@ pub fn c12(a: &Args) -> (Stats, String) {
     (
         st,
         format!(
-            "\"backend\":\"{}\",\"capacity\":{},\"operands\":{},\"binary_subfamily\":{},\"families\":[{{\"family\":\"LIMBS x every bigint operation\",\"wall_s\":{:.2}}}]",
+            "\"backend\":\"{}\",\"capacity\":{},\"operands\":{},\"binary_subfamily\":{},\"quot_operands\":{},\"families\":[{{\"family\":\"LIMBS x every bigint operation + QUOT (inverse images of special products under 5^27..5^270)\",\"wall_s\":{:.2}}}]",
             if HEAP { "heap" } else { "stack" },
             c,
             nops,
             nsub,
+            nquot,
             t.secs()
         ),
     )
@@ -764,8 +847,40 @@ fn hist_string(ci: usize, full: bool, idx: &[usize]) -> String {
     format!("{}:{}:{}", if full { "F" } else { "K" }, ci, idx.iter().map(|i| i.to_string()).collect::<Vec<_>>().join(","))
 }
 
+/// LADDER histories (round 8): `k` pushes of position-dependent values, `j` pops, a resize to `r`, then a fixed tail -
+/// every length 0..=cap+1 is reached by pushes, left by pops and jumped to by a resize, which the alphabets (lengths
+/// 0, 1, 2, cap/2, cap-1, cap, cap+1 only) cannot do within their depth.
+fn ladder_ops(k: usize, j: usize, r: usize, f: usize) -> Vec<Op> {
+    let vals = [1u64, u64::MAX, 0x0123_4567_89AB_CDEF, 0, 2];
+    let mut ops: Vec<Op> = Vec::with_capacity(k + j + 12);
+    for i in 0..k {
+        ops.push(Op::Push(if i % 5 == 4 { i as u64 + 2 } else { vals[i % 5] }));
+    }
+    for _ in 0..j {
+        ops.push(Op::Pop);
+    }
+    ops.push(Op::Resize(r, [0u64, u64::MAX, 0x0123_4567_89AB_CDEF][f % 3]));
+    ops.push(Op::CloneIt);
+    ops.push(Op::Extend(2));
+    ops.push(Op::AddSmall(u64::MAX));
+    ops.push(Op::MulSmall(u64::MAX));
+    ops.push(Op::Normalize);
+    ops.push(Op::Pop);
+    ops.push(Op::Push(1));
+    ops.push(Op::Resize(r / 2 + 1, 0));
+    ops.push(Op::AddSmall(1));
+    ops
+}
+
 fn exec_hist_string(s: &str) -> (Option<String>, String) {
     let parts: Vec<&str> = s.split(':').collect();
+    if parts[0] == "L" {
+        let n: Vec<usize> = parts[1..5].iter().map(|x| x.parse().unwrap()).collect();
+        let ops = ladder_ops(n[0], n[1], n[2], n[3]);
+        let (mut a, mut b) = (0, 0);
+        let r = catch_unwind(AssertUnwindSafe(|| run_history(Op::New, &ops, &mut a, &mut b))).unwrap_or_else(|e| Some(format!("panic: {}", real::panic_msg(e))));
+        return (r, format!("LADDER: {} pushes, {} pops, resize to {} (fill {}), tail: {:?}", n[0], n[1], n[2], n[3], &ops[n[0] + n[1]..]));
+    }
     let alpha = if parts[0] == "F" { full_alphabet() } else { core_alphabet() };
     let ci: usize = parts[1].parse().unwrap();
     let idx: Vec<usize> = if parts[2].is_empty() { vec![] } else { parts[2].split(',').map(|x| x.parse().unwrap()).collect() };
@@ -804,11 +919,41 @@ pub fn c13(a: &Args) -> (Stats, String) {
             specs.push((false, ci, f));
         }
     }
-    let dummy: Vec<Job> = specs.iter().map(|_| -> Job { Box::new(|_e: &mut fam::Emit| {}) }).collect();
+    // LADDER jobs: one per number of pushes (skipped when `--depths` restricts the run for the slow monitors)
+    let nspec = specs.len();
+    let nladder = if a.rest.iter().any(|x| x == "--depths") { 0 } else { cap() + 2 };
+    let dummy: Vec<Job> = (0..nspec + nladder).map(|_| -> Job { Box::new(|_e: &mut fam::Emit| {}) }).collect();
     let st = run_jobs(
         &dummy,
         |_s, _j, _c| {},
         |st, j| {
+            if j >= nspec {
+                let k = j - nspec;
+                let c = cap();
+                let mut steps = 0u64;
+                let mut cap_fail = 0u64;
+                for jj in 0..=k.min(c) {
+                    for r in 0..=c + 1 {
+                        for f in 0..2usize {
+                            let f = (f + r + jj) % 3;
+                            let ops = ladder_ops(k, jj, r, f);
+                            st.cases += 1;
+                            st.nontrivial += 1;
+                            st.calls += 1;
+                            st.bump("ladder_histories");
+                            let res = catch_unwind(AssertUnwindSafe(|| run_history(Op::New, &ops, &mut steps, &mut cap_fail)))
+                                .unwrap_or_else(|e| Some(format!("panic: {}", real::panic_msg(e))));
+                            if let Some(m) = res {
+                                let hs = format!("L:{}:{}:{}:{}", k, jj, r, f);
+                                st.violation(api_violation("vector-history", "-", format!("LADDER {} pushes, {} pops, resize to {}, tail", k, jj, r), m, "the reference sequence".into(), vec!["replay-c13".into(), hs]));
+                            }
+                        }
+                    }
+                }
+                st.add("steps", steps);
+                st.add("capacity_failures_observed", cap_fail);
+                return;
+            }
             let (full, ci, first) = specs[j];
             let alpha = if full { &fa } else { &ca };
             let depth = if full { dfull } else { dcore };
